@@ -17,11 +17,11 @@ RULE = ('random operation histories (append / appendleft / pop / popleft / clear
         'contents minus exactly one). A blocking put on a full token queue (which would block forever in a sequential history) is made '
         'observable by a Queue subclass raising instead of blocking. Token accounting: tokens >= pending after every completed post, and '
         'tokens == pending whenever the history followed the consumer protocol. The same through HsmWithQueues.post_* and '
-        'ActiveObject.post_* (object not started; a fifth of these posts are made as one-shot TIMED posts - period 0, not deferred - by their posting thread, which is joined before the queue is read). distinct_nontrivial = distinct (capacity, target, op kind, fill level class) tuples '
+        'ActiveObject.post_* (object not started; a fifth of these posts are made as one-shot TIMED posts - period 0, not deferred - by their posting thread, which is joined before the queue is read). Every fortieth case posts 505-930 events to a (not started) chart of a SUBCLASS that raises QUEUE_SIZE to 600-900: no post may block, the queue stays within the capacity of that class, every new event is at its end. distinct_nontrivial = distinct (capacity, target, op kind, fill level class) tuples '
         'seen with an overflow or a clear. Every eighth case runs clear() from another thread while a consumer (a wait/popleft thread on a bare LockingDeque, or a started object) works through a backlog (detsched): clear() must return without raising, leave no event and no token, and a later post must reach the live consumer')
 CASES = {'quick': 4000, 'thorough': 300000}
 BUDGET = {'quick': 150, 'thorough': 300}
-REQUIRE = {'ops': 50000, 'overflow_fifo': 500, 'overflow_lifo': 500, 'clears': 500, 'clear_on_fresh': 50, 'protocol_histories': 300, 'concurrent_clear_runs': 300, 'clear_landed_mid_backlog': 50, 'aftermath_checked': 200, 'one_shot_timed_posts': 300}
+REQUIRE = {'ops': 50000, 'overflow_fifo': 500, 'overflow_lifo': 500, 'clears': 500, 'clear_on_fresh': 50, 'protocol_histories': 300, 'concurrent_clear_runs': 300, 'clear_landed_mid_backlog': 50, 'aftermath_checked': 200, 'one_shot_timed_posts': 300, 'roomy_class_cases': 60}
 ASSUME = ['sequential histories (one thread) plus clear() racing one consumer; concurrent posting is C04/C05',
           'an active object thread ended by a foreign clear() between its token wait and its popleft/task_done is counted, not judged: no property quantifies over that history']
 
@@ -243,9 +243,48 @@ def concurrent_clear_case(ctx, n):
     ds.uninstall()
 
 
+def roomy_class_case(ctx, n):
+  """an ActiveObject / HsmWithQueues SUBCLASS that raises QUEUE_SIZE, posted to (not started, so nothing is consumed) beyond
+  the stock 500 events: no post may block, the queue stays within the class's capacity, every new event is at its end"""
+  rng = ctx.rng('roomy', n)
+  cap = rng.choice([600, 750, 900])
+  base = rng.choice([ActiveObject, ActiveObject, HsmWithQueues])
+  savedq = AO.Queue
+  AO.Queue = NoBlockQueue
+  try:
+    class Roomy(base):
+      QUEUE_SIZE = cap
+    chart = Roomy(name='c16_roomy') if base is ActiveObject else Roomy()
+  finally:
+    AO.Queue = savedq
+  total = rng.randint(505, cap + 30)
+  ctx.count('roomy_class_cases')
+  ctx.distinct(('roomy', cap, base.__name__, total > cap))
+  wit = {'QUEUE_SIZE_of_the_chart_class': cap, 'host': base.__name__, 'posts': total}
+  q = lambda: getattr(chart.queue, 'deque', chart.queue)
+  for u in range(total):
+    kind = 'fifo' if rng.random() < 0.7 else 'lifo'
+    try:
+      (chart.post_fifo if kind == 'fifo' else chart.post_lifo)(Event(signal='C16_EVT', payload=u))
+    except WouldBlock as ex:
+      ctx.violation('C16/post-blocks', 'post number %d (%s) to a chart of a class with QUEUE_SIZE = %d would block forever: %s (%d events pending)' % (u + 1, kind, cap, ex, len(q())), wit)
+      return
+    ctx.count('ops')
+    d = q()
+    if len(d) > cap:
+      ctx.violation('C16/exceeds-capacity', 'queue holds %d events, the class\'s QUEUE_SIZE is %d' % (len(d), cap), wit)
+      return
+    end = d[-1] if kind == 'fifo' else d[0]
+    if end.payload != u:
+      ctx.violation('C16/new-event-lost-on-overflow/%s' % kind, 'post number %d (%s): the new event is not at the %s of the queue (%d pending, class QUEUE_SIZE %d)' % (u + 1, kind, 'back' if kind == 'fifo' else 'front', len(d), cap), wit)
+      return
+
+
 def run_case(ctx, n):
   if n % 8 == 7:
     return concurrent_clear_case(ctx, n)
+  if n % 40 == 13:
+    return roomy_class_case(ctx, n)
   rng = ctx.rng('case', n)
   cap = rng.choice([3, 3, 8, 8, 500])
   kind = rng.choice(['ld', 'ld', 'hsm', 'ao'])
